@@ -95,7 +95,7 @@ PROPS['C20'] = dict(modules=['Hagall.Props.C20', 'Hagall.Props.C20Prim'], profil
                     topics=slice_of(['quadSample', 'groundPlane', 'region', 'debugInfo'], outs={'groundPlaneResp', 'regionResp', 'debugInfoResp', 'error'}),
                     trusted=['go/cmd/grid (grid harness, exact-arithmetic monitors)', 'Lean Float32 = IEEE binary32 as compiled by leanc; Go float32 on amd64 without FMA'])
 
-PROPS['C11'] = dict(modules=['Hagall.Props.C11'], profiles=['pose', 'mixed', 'join'], n=(240, 4000), focus={'updatePose', 'entityDelete', 'join'},
+PROPS['C11'] = dict(modules=['Hagall.Props.C11'], profiles=['pose', 'mixed', 'join'], n=(240, 4000), focus={'updatePose', 'entityDelete', 'join'}, extra=['conc_explore'],
                     topics=slice_of(['updatePose', 'entityDelete', 'join', 'disconnect'], kinds=['queue'],
                                     outs={'poseBcast', 'sessionState', 'entityDeleteBcast'}))
 
